@@ -97,8 +97,11 @@ struct ThreadCtx {
         int ttl;
     };
     std::vector<SbEnt> sb;
-    // fault injection
-    long throw_at = -1;  // throw at the k-th maybe_throw of this thread (global counter used instead)
+    // fault injection (per thread): the k-th call of maybe_throw() at an enabled site throws
+    long throw_at = 0;
+    long throw_calls = 0;
+    long throws_done = 0;
+    uint32_t throw_mask = 0;
 };
 
 struct Injected {  // the exception thrown by the fault engine
@@ -132,10 +135,6 @@ struct Runtime {
     std::mutex err_mu;
     std::vector<std::string> shadow_errors;
     std::atomic<int> global_held{0};
-    // fault engine
-    std::atomic<long> throw_countdown{-1};  // <0: disabled; k-th call throws when reaches 0
-    std::atomic<long> throw_calls{0};
-    std::atomic<long> throws_done{0};
     // ---- serial scheduler (touched only by the token holder / controller)
     int sn = 0;
     SThread sth[MAXT];
@@ -518,13 +517,31 @@ inline void harness_point() { pre(H_POINT, nullptr); }
 
 inline void maybe_throw(int site)
 {
-    long n = rt.throw_calls.fetch_add(1, std::memory_order_relaxed) + 1;
-    long cd = rt.throw_countdown.load(std::memory_order_relaxed);
-    if (cd >= 0 && n == cd) {
-        rt.throws_done.fetch_add(1, std::memory_order_relaxed);
+    ThreadCtx& c = ctx();
+    if (!((c.throw_mask >> site) & 1u)) return;
+    long n = ++c.throw_calls;
+    if (c.throw_at > 0 && n == c.throw_at) {
+        c.throws_done++;
         throw Injected{site, n};
     }
 }
+inline void fault_arm(uint32_t site_mask, long k)
+{
+    ThreadCtx& c = ctx();
+    c.throw_mask = site_mask;
+    c.throw_calls = 0;
+    c.throws_done = 0;
+    c.throw_at = k;
+}
+// returns the number of invocations of enabled sites since fault_arm
+inline long fault_disarm()
+{
+    ThreadCtx& c = ctx();
+    c.throw_mask = 0;
+    c.throw_at = 0;
+    return c.throw_calls;
+}
+inline long fault_throws() { return ctx().throws_done; }
 
 // ------------------------------------------------------------------ mutex core
 template<class Real>
